@@ -334,6 +334,52 @@ func runC16(c *Check) {
 						"after skipping an over-size blob the RPC can still be made: the caller gets ids for fewer blobs than it believes were taken, in the wrong positions", g, path)
 				}
 			}
+			// every input blob is accounted for: from the start of an iteration the next iteration
+			// is reached only through the append or through the recorded skip (the counter that
+			// forces the error return); a blob passed over silently makes the returned ids fewer
+			// than the caller's prefix, so an unsent blob is marked submitted
+			{
+				// the loop around the append; if the loop body sits in a closure called on the spot,
+				// the loop is the one around that call
+				ab, actx := apps[0].In.Block(), apps[0].Ctx
+				hb := loopHeaderOf(ab)
+				for hb == nil && actx != nil && actx.Site != nil && actx.Parent != nil {
+					ab, actx = actx.Site.Block(), actx.Parent
+					hb = loopHeaderOf(ab)
+				}
+				var head *Node
+				var bodyEntry []*Node
+				if hb != nil {
+					head = g.headNode(actx, hb)
+					if ifi, ok := hb.Instrs[len(hb.Instrs)-1].(*ssa.If); ok {
+						bodyEntry = g.Select(func(n *Node) bool { return n.Kind == NTrue && n.In == ssa.Instruction(ifi) && n.Ctx == actx })
+					}
+				}
+				isCount := func(n *Node) bool {
+					b, ok := n.In.(*ssa.BinOp)
+					if !ok || b.Op != token.ADD {
+						return false
+					}
+					k, isK := b.Y.(*ssa.Const)
+					if !isK || k.Int64() != 1 {
+						return false
+					}
+					// the skip counter: a +1 on the path behind an individual-size test
+					for _, se := range skipEdges {
+						if g.PathAvoiding([]*Node{se}, func(x *Node) bool { return x == n }, nodeSet(apps)) != nil {
+							return true
+						}
+					}
+					return false
+				}
+				if head == nil || len(bodyEntry) == 0 {
+					c.Unk("C16-R3", "SubmitWithOptions ⟂ every-blob-accounted-for", fn, "", "anchor lost: the filter is not a loop over the input blobs")
+				} else {
+					c.Decide("C16-R3", "SubmitWithOptions ⟂ every-blob-accounted-for", fn, dp.InstrPos(apps[0].In), "the next blob is looked at only after this one was appended or its skip was recorded",
+						"a blob can be passed over without being appended and without the skip being recorded: fewer ids come back than the prefix the caller believes was taken, so an unsent blob is marked as submitted and a sent one is submitted again", g,
+						g.PathAvoiding(bodyEntry, func(n *Node) bool { return n == head }, orPred(nodeSet(apps), isCount)))
+				}
+			}
 			// ids returned are the server's
 			okRet := false
 			for _, x := range g.Exits {
@@ -349,7 +395,7 @@ func runC16(c *Check) {
 			}
 		}
 	}
-	c.MinInstances("C16-R3", 6)
+	c.MinInstances("C16-R3", 7)
 
 	// ---- R4 pass-through
 	methods := []string{"Get", "GetIDs", "GetProofs", "Commit", "Validate", "Submit", "SubmitWithOptions", "GasPrice", "GasMultiplier"}
